@@ -173,6 +173,8 @@ Theorem model_pins_current :
    ("servermap_got_signature_one_share", "df7d2e01521ee153")%string;
    ("servermap_try_to_set_pubkey", "9b3fe4c5d6331ab7")%string;
    ("servermap_got_results", "60636861fd94f8ae")%string;
-   ("servermap_got_corrupt_share", "bc3bac0912a7b816")%string].
+   ("servermap_got_corrupt_share", "bc3bac0912a7b816")%string;
+   ("filenode_download_best_version", "6a55fcbaf8500a00")%string;
+   ("retrieve_mark_bad_share", "47c61169c350b32c")%string].
 Proof. reflexivity. Qed.
 Print Assumptions model_pins_current.
